@@ -5,7 +5,7 @@ package modbus
 // Contracts for the govc verification-condition generator (/verif/govc).
 // This file is comment-only and guarded by the build tag `verif`.
 
-//@ spec func be16(b []byte, i int) uint16 = uint16(b[i])<<8 | uint16(b[i+1])
+//@ spec func be16(b []byte, i int) uint16 = uint16(b[i])*256 + uint16(b[i+1])
 
 //@ func (*PDU).RespReadRegs
 //@   props C19
@@ -213,54 +213,201 @@ package modbus
 //@     decreases len(in) - rangeindex
 
 // ---- reg.go: the register file (C18) -------------------------------------------
-// Abstraction used by all register contracts: register `a` exists iff 0 <= a <= 65535
-// and some entry of r.regs has that address; its value is that of the FIRST such entry.
+// Abstract view of a *Regs: register `a` exists iff 0 <= a <= 65535 and some entry of
+// r.regs has that address; its value / validator are those of the FIRST such entry
+// (that is the entry readReg and writeReg use). hasReg, regVal, regOK, hasCoil and
+// coilVal are opaque functions of the heap pieces (*r and the backing array of r.regs);
+// the *_def axioms define them and are only needed to verify the methods of Regs.
 
 //@ spec func matchAt(r *Regs, k int, a int) bool = 0 <= k && k < len(r.regs) && int(r.regs[k].Address) == a
 //@ spec func firstAt(r *Regs, k int, a int) bool = matchAt(r, k, a) && (forall j int :: 0 <= j && j < k ==> int(r.regs[j].Address) != a)
-//@ spec func hasReg(r *Regs, a int) bool = 0 <= a && a <= 65535 && (exists k int :: matchAt(r, k, a))
 //@ spec func accepts(r *Regs, k int, v uint16) bool = r.regs[k].Validate == nil || apply(r.regs[k].Validate, v)
-//@ spec func regsSame(r *Regs) bool = sameSlice(r.regs, old(r.regs)) && (forall j int :: 0 <= j && j < len(r.regs) ==> r.regs[j] == old(r.regs[j]))
-//@ spec func regsSameExcept(r *Regs, k int) bool = sameSlice(r.regs, old(r.regs)) && (forall j int :: 0 <= j && j < len(r.regs) && j != k ==> r.regs[j] == old(r.regs[j]))
-//@ spec func bit16(v uint16, n int) bool = (v >> uint(n)) & 1 == 1
-//@ spec func setBit16(v uint16, n int, b bool) uint16 = ite(b, v | (1 << uint(n)), v & ^(1 << uint(n)))
+//@ spec func bit16(v uint16, n int) bool = v & (uint16(1) << n) != 0
+//@ spec func setBit16(v uint16, n int, b bool) uint16 = ite(b, v | (uint16(1) << n), v & ^(uint16(1) << n))
+
+//@ opaque func hasReg(r *Regs, a int) bool reads r, r.regs
+//@ opaque func firstIdx(r *Regs, a int) int reads r, r.regs
+//@ opaque func regVal(r *Regs, a int) uint16 reads r, r.regs
+//@ opaque func regOK(r *Regs, a int, v uint16) bool reads r, r.regs
+//@ opaque func hasCoil(r *Regs, c int) bool reads r, r.regs
+//@ opaque func coilVal(r *Regs, c int) bool reads r, r.regs
+
+//@ axiom hasReg_def reads r, r.regs: forall r *Regs, a int :: hasReg(r, a) <==> (0 <= a && a <= 65535 && (exists k int :: matchAt(r, k, a)))
+//@ axiom firstIdx_exists reads r, r.regs: forall r *Regs, a int :: hasReg(r, a) ==> firstAt(r, firstIdx(r, a), a)
+//@ axiom regVal_def reads r, r.regs: forall r *Regs, a int :: regVal(r, a) == ite(hasReg(r, a), r.regs[firstIdx(r, a)].Value, 0)
+//@ axiom regOK_def reads r, r.regs: forall r *Regs, a int, v uint16 :: regOK(r, a, v) <==> (hasReg(r, a) && accepts(r, firstIdx(r, a), v))
+//@ axiom hasCoil_def reads r, r.regs: forall r *Regs, c int :: hasCoil(r, c) <==> (c >= 0 && hasReg(r, fdiv(c, 16)))
+//@ axiom coilVal_def reads r, r.regs: forall r *Regs, c int :: coilVal(r, c) <==> (c >= 0 && bit16(regVal(r, fdiv(c, 16)), fmod(c, 16)))
+
+//@ spec func regsFrame(r *Regs) bool = sameSlice(r.regs, old(r.regs)) && (forall a int :: hasReg(r, a) == old(hasReg(r, a))) && (forall a int, v uint16 :: regOK(r, a, v) == old(regOK(r, a, v)))
+//@ spec func valsSame(r *Regs) bool = forall a int :: regVal(r, a) == old(regVal(r, a))
+//@ spec func valsSameExcept(r *Regs, x int) bool = forall a int :: a != x ==> regVal(r, a) == old(regVal(r, a))
 
 //@ func (*Regs).readReg
 //@   props C18
-//@   mode bv
 //@   requires r != nil
-//@   ensures [C18] err == nil ==> hasReg(r, address) && (forall k int :: firstAt(r, k, address) ==> res0 == r.regs[k].Value)
+//@   ensures [C18] err == nil ==> hasReg(r, address) && res0 == regVal(r, address)
 //@   ensures [C18] err != nil ==> err == ExcIllegalAddress && !hasReg(r, address) && res0 == 0
 //@   loop 1:
 //@     invariant -1 <= rangeindex && rangeindex < len(r.regs) || rangeindex == -1
-//@     invariant forall j int :: 0 <= j && j <= rangeindex ==> r.regs[j].Address != uint16(address)
+//@     invariant 0 <= address && address <= 65535
+//@     invariant forall j int :: 0 <= j && j <= rangeindex ==> int(r.regs[j].Address) != address
 //@     decreases len(r.regs) - rangeindex
 
 //@ func (*Regs).ReadReg
 //@   props C18
-//@   mode bv
 //@   requires r != nil
-//@   ensures [C18] err == nil ==> hasReg(r, address) && (forall k int :: firstAt(r, k, address) ==> res0 == r.regs[k].Value)
+//@   ensures [C18] err == nil ==> hasReg(r, address) && res0 == regVal(r, address)
 //@   ensures [C18] err != nil ==> err == ExcIllegalAddress && !hasReg(r, address)
 
 //@ func (*Regs).ReadInputReg
 //@   props C18
-//@   mode bv
 //@   requires r != nil
-//@   ensures [C18] err == nil ==> hasReg(r, address) && (forall k int :: firstAt(r, k, address) ==> res0 == r.regs[k].Value)
+//@   ensures [C18] err == nil ==> hasReg(r, address) && res0 == regVal(r, address)
 //@   ensures [C18] err != nil ==> err == ExcIllegalAddress && !hasReg(r, address)
 
 //@ func (*Regs).writeReg
 //@   props C18
-//@   mode bv
 //@   requires r != nil
 //@   modifies r.regs
-//@   ensures [C18] err == nil ==> old(hasReg(r, address)) && (forall k int :: old(firstAt(r, k, address)) ==> old(accepts(r, k, value)) && r.regs[k].Value == value && r.regs[k].Address == old(r.regs[k].Address) && r.regs[k].Validate == old(r.regs[k].Validate) && regsSameExcept(r, k))
-//@   ensures [C18] err != nil ==> regsSame(r)
-//@   ensures [C18] err != nil ==> (err == ExcIllegalAddress && !old(hasReg(r, address))) || (err == ExcIllegalValue && old(hasReg(r, address)) && (forall k int :: old(firstAt(r, k, address)) ==> !old(accepts(r, k, value))))
+//@   ensures [C18] regsFrame(r)
+//@   ensures [C18] err == nil ==> old(hasReg(r, address)) && old(regOK(r, address, value)) && regVal(r, address) == value && valsSameExcept(r, address)
+//@   ensures [C18] err != nil ==> valsSame(r)
+//@   ensures [C18] err != nil ==> (err == ExcIllegalAddress && !old(hasReg(r, address))) || (err == ExcIllegalValue && old(hasReg(r, address)) && !old(regOK(r, address, value)))
 //@   loop 1:
 //@     invariant -1 <= rangeindex && rangeindex < len(r.regs) || rangeindex == -1
-//@     invariant forall j int :: 0 <= j && j <= rangeindex ==> r.regs[j].Address != uint16(address)
-//@     invariant regsSame(r)
+//@     invariant 0 <= address && address <= 65535
+//@     invariant forall j int :: 0 <= j && j <= rangeindex ==> int(r.regs[j].Address) != address
+//@     invariant sameSlice(r.regs, old(r.regs)) && (forall j int :: 0 <= j && j < len(r.regs) ==> r.regs[j] == old(r.regs[j]))
 //@     modifies r.regs
 //@     decreases len(r.regs) - rangeindex
+
+//@ func (*Regs).WriteReg
+//@   props C18
+//@   requires r != nil
+//@   modifies r.regs
+//@   ensures [C18] regsFrame(r)
+//@   ensures [C18] err == nil ==> old(hasReg(r, address)) && old(regOK(r, address, value)) && regVal(r, address) == value && valsSameExcept(r, address)
+//@   ensures [C18] err != nil ==> valsSame(r)
+//@   ensures [C18] err != nil ==> (err == ExcIllegalAddress && !old(hasReg(r, address))) || (err == ExcIllegalValue && old(hasReg(r, address)) && !old(regOK(r, address, value)))
+
+//@ func (*Regs).ReadCoil
+//@   props C18
+//@   requires r != nil && num >= 0
+//@   ensures [C18] err == nil ==> hasCoil(r, num) && res0 == coilVal(r, num)
+//@   ensures [C18] err != nil ==> err == ExcIllegalAddress && !hasCoil(r, num)
+
+//@ func (*Regs).ReadDiscreteInput
+//@   props C18
+//@   requires r != nil && num >= 0
+//@   ensures [C18] err == nil ==> hasCoil(r, num) && res0 == coilVal(r, num)
+//@   ensures [C18] err != nil ==> err == ExcIllegalAddress && !hasCoil(r, num)
+
+//@ spec func coilsFrame(r *Regs) bool = forall c int :: hasCoil(r, c) == old(hasCoil(r, c))
+//@ spec func coilsSame(r *Regs) bool = forall c int :: coilVal(r, c) == old(coilVal(r, c))
+//@ spec func coilsSameExcept(r *Regs, x int) bool = forall c int :: c != x ==> coilVal(r, c) == old(coilVal(r, c))
+
+//@ func (*Regs).WriteCoil
+//@   props C18
+//@   requires r != nil && num >= 0
+//@   modifies r.regs
+//@   ensures [C18] regsFrame(r) && coilsFrame(r)
+//@   ensures [C18] valsSameExcept(r, fdiv(num, 16))
+//@   ensures [C18] err == nil ==> old(hasCoil(r, num)) && coilVal(r, num) == value && coilsSameExcept(r, num)
+//@   ensures [C18] err == nil ==> old(regOK(r, fdiv(num, 16), setBit16(regVal(r, fdiv(num, 16)), fmod(num, 16), value)))
+//@   ensures [C18] err != nil ==> valsSame(r) && coilsSame(r)
+//@   ensures [C18] err != nil ==> (err == ExcIllegalAddress && !old(hasCoil(r, num))) || (err == ExcIllegalValue && old(hasCoil(r, num)) && !old(regOK(r, fdiv(num, 16), setBit16(regVal(r, fdiv(num, 16)), fmod(num, 16), value))))
+
+// ---- pdu.go: the server side (C18) --------------------------------------------
+// The register provider is devirtualised to *Regs (the only implementation in the
+// repository; NewServer takes a *Regs), justified by the requires clause.
+
+//@ spec func RG(regs RegProvider) *Regs = dyn(regs, *Regs)
+//@ spec func excResp(p *PDU, changed bool, resp PDU, err error, code byte) bool = !changed && err == nil && resp.FunctionCode == p.FunctionCode | 0x80 && len(resp.Data) == 1 && resp.Data[0] == code
+//@ spec func normalResp(p *PDU, resp PDU, err error) bool = err == nil && resp.FunctionCode == p.FunctionCode
+//@ spec func reqAddr(p *PDU) int = int(be16(p.Data, 0))
+//@ spec func reqQty(p *PDU) int = int(be16(p.Data, 2))
+//@ spec func bit8(b byte, n int) bool = b & (byte(1) << n) != 0
+//@ spec func lenOK(p *PDU) bool = len(p.Data) >= minRequestLen[p.FunctionCode] - 1
+//@ spec func isReadBits(p *PDU) bool = p.FunctionCode == FuncCodeReadCoils || p.FunctionCode == FuncCodeReadDiscreteInputs
+//@ spec func isReadRegs(p *PDU) bool = p.FunctionCode == FuncCodeReadHoldingRegisters || p.FunctionCode == FuncCodeReadInputRegisters
+//@ spec func unchanged(r *Regs) bool = regsFrame(r) && valsSame(r) && coilsFrame(r) && coilsSame(r)
+//@ spec func coilsPresent(r *Regs, a int, q int) bool = forall c int :: a <= c && c < a+q ==> hasCoil(r, c)
+//@ spec func regsPresent(r *Regs, a int, q int) bool = forall g int :: a <= g && g < a+q ==> hasReg(r, g)
+
+//@ func (*PDU).handleError
+//@   props C18
+//@   requires p != nil
+//@   ensures [C18] !res0 && res2 == nil && res1.FunctionCode == p.FunctionCode | 0x80 && len(res1.Data) == 1
+//@   ensures [C18] typeIs(err, ExceptionCode) ==> res1.Data[0] == byte(dyn(err, ExceptionCode))
+//@   ensures [C18] !typeIs(err, ExceptionCode) ==> res1.Data[0] == 4
+//@   decreases ite(typeIs(err, ExceptionCode), 0, 1)
+
+//@ func (*PDU).ProcessRequest
+//@   props C18
+//@   dispatch RegProvider *Regs
+//@   requires p != nil && typeIs(regs, *Regs) && RG(regs) != nil
+//@   modifies RG(regs).regs
+//@   ensures [C18] frame: regsFrame(RG(regs)) && coilsFrame(RG(regs))
+//@   ensures [C18] no-change-flag-on-failure: (err != nil || res1.FunctionCode != p.FunctionCode) ==> !res0
+//@   ensures [C18] short: !lenOK(p) ==> err != nil && unchanged(RG(regs))
+//@   ensures [C18] illegal-function: lenOK(p) && !isReadBits(p) && !isReadRegs(p) && p.FunctionCode != FuncCodeWriteSingleCoil && p.FunctionCode != FuncCodeWriteSingleRegister && p.FunctionCode != FuncCodeWriteMultipleCoils && p.FunctionCode != FuncCodeWriteMultipleRegisters ==> excResp(p, res0, res1, err, 1) && unchanged(RG(regs))
+//@   ensures [C18] readbits-qty: lenOK(p) && isReadBits(p) && (reqQty(p) < 1 || reqQty(p) > 2000) ==> excResp(p, res0, res1, err, 3) && unchanged(RG(regs))
+//@   ensures [C18] readbits-addr: lenOK(p) && isReadBits(p) && 1 <= reqQty(p) && reqQty(p) <= 2000 && !old(coilsPresent(RG(regs), reqAddr(p), reqQty(p))) ==> excResp(p, res0, res1, err, 2) && unchanged(RG(regs))
+//@   ensures [C18] readbits-ok: lenOK(p) && isReadBits(p) && 1 <= reqQty(p) && reqQty(p) <= 2000 && old(coilsPresent(RG(regs), reqAddr(p), reqQty(p))) ==> !res0 && normalResp(p, res1, err) && len(res1.Data) == 1 + fdiv(reqQty(p)+7, 8) && int(res1.Data[0]) == fdiv(reqQty(p)+7, 8) && unchanged(RG(regs))
+//@   ensures [C18] readbits-values: lenOK(p) && isReadBits(p) && normalResp(p, res1, err) ==> (forall c int :: reqAddr(p) <= c && c < reqAddr(p)+reqQty(p) ==> bit8(res1.Data[1+fdiv(c-reqAddr(p), 8)], fmod(c-reqAddr(p), 8)) == coilVal(RG(regs), c))
+//@   ensures [C18] readbits-padding: lenOK(p) && isReadBits(p) && normalResp(p, res1, err) ==> (forall j int :: reqQty(p) <= j && j < 8*fdiv(reqQty(p)+7, 8) ==> !bit8(res1.Data[1+fdiv(j, 8)], fmod(j, 8)))
+//@   ensures [C18] readregs-qty: lenOK(p) && isReadRegs(p) && (reqQty(p) < 1 || reqQty(p) > 125) ==> excResp(p, res0, res1, err, 3) && unchanged(RG(regs))
+//@   ensures [C18] readregs-addr: lenOK(p) && isReadRegs(p) && 1 <= reqQty(p) && reqQty(p) <= 125 && !old(regsPresent(RG(regs), reqAddr(p), reqQty(p))) ==> excResp(p, res0, res1, err, 2) && unchanged(RG(regs))
+//@   ensures [C18] readregs-ok: lenOK(p) && isReadRegs(p) && 1 <= reqQty(p) && reqQty(p) <= 125 && old(regsPresent(RG(regs), reqAddr(p), reqQty(p))) ==> !res0 && normalResp(p, res1, err) && len(res1.Data) == 1 + 2*reqQty(p) && int(res1.Data[0]) == 2*reqQty(p) && unchanged(RG(regs))
+//@   ensures [C18] readregs-values: lenOK(p) && isReadRegs(p) && normalResp(p, res1, err) ==> (forall g int :: reqAddr(p) <= g && g < reqAddr(p)+reqQty(p) ==> be16(res1.Data, 1+2*(g-reqAddr(p))) == regVal(RG(regs), g))
+//@   ensures [C18] wsc-value: lenOK(p) && p.FunctionCode == FuncCodeWriteSingleCoil && reqQty(p) != 0 && reqQty(p) != 0xFF00 ==> excResp(p, res0, res1, err, 3) && unchanged(RG(regs))
+//@   ensures [C18] wsc-addr: lenOK(p) && p.FunctionCode == FuncCodeWriteSingleCoil && (reqQty(p) == 0 || reqQty(p) == 0xFF00) && !old(hasCoil(RG(regs), reqAddr(p))) ==> excResp(p, res0, res1, err, 2) && unchanged(RG(regs))
+//@   ensures [C18] wsc-refused: lenOK(p) && p.FunctionCode == FuncCodeWriteSingleCoil && (reqQty(p) == 0 || reqQty(p) == 0xFF00) && old(hasCoil(RG(regs), reqAddr(p))) && !normalResp(p, res1, err) ==> excResp(p, res0, res1, err, 3) && unchanged(RG(regs))
+//@   ensures [C18] wsc-ok: lenOK(p) && p.FunctionCode == FuncCodeWriteSingleCoil && normalResp(p, res1, err) ==> res0 && (reqQty(p) == 0 || reqQty(p) == 0xFF00) && old(hasCoil(RG(regs), reqAddr(p))) && res1.Data == p.Data && coilVal(RG(regs), reqAddr(p)) == (reqQty(p) == 0xFF00) && coilsSameExcept(RG(regs), reqAddr(p)) && valsSameExcept(RG(regs), fdiv(reqAddr(p), 16))
+//@   ensures [C18] wsr-addr: lenOK(p) && p.FunctionCode == FuncCodeWriteSingleRegister && !old(hasReg(RG(regs), reqAddr(p))) ==> excResp(p, res0, res1, err, 2) && unchanged(RG(regs))
+//@   ensures [C18] wsr-refused: lenOK(p) && p.FunctionCode == FuncCodeWriteSingleRegister && old(hasReg(RG(regs), reqAddr(p))) && !old(regOK(RG(regs), reqAddr(p), be16(p.Data, 2))) ==> excResp(p, res0, res1, err, 3) && unchanged(RG(regs))
+//@   ensures [C18] wsr-ok: lenOK(p) && p.FunctionCode == FuncCodeWriteSingleRegister && old(hasReg(RG(regs), reqAddr(p))) && old(regOK(RG(regs), reqAddr(p), be16(p.Data, 2))) ==> res0 && normalResp(p, res1, err) && res1.Data == p.Data && regVal(RG(regs), reqAddr(p)) == be16(p.Data, 2) && valsSameExcept(RG(regs), reqAddr(p))
+//@   ensures [C18] wmc-qty: lenOK(p) && p.FunctionCode == FuncCodeWriteMultipleCoils && (reqQty(p) < 1 || reqQty(p) > 1968) ==> excResp(p, res0, res1, err, 3) && unchanged(RG(regs))
+//@   ensures [C18] wmc-len: lenOK(p) && p.FunctionCode == FuncCodeWriteMultipleCoils && 1 <= reqQty(p) && reqQty(p) <= 1968 && len(p.Data) != 5 + fdiv(reqQty(p)+7, 8) ==> excResp(p, res0, res1, err, 3) && unchanged(RG(regs))
+//@   ensures [C18] wmc-exc: lenOK(p) && p.FunctionCode == FuncCodeWriteMultipleCoils && !normalResp(p, res1, err) ==> excResp(p, res0, res1, err, 2) || excResp(p, res0, res1, err, 3)
+//@   ensures [C18] wmc-ok: lenOK(p) && p.FunctionCode == FuncCodeWriteMultipleCoils && normalResp(p, res1, err) ==> res0 && 1 <= reqQty(p) && reqQty(p) <= 1968 && len(p.Data) == 5 + fdiv(reqQty(p)+7, 8) && len(res1.Data) == 4 && int(be16(res1.Data, 0)) == reqAddr(p) && int(be16(res1.Data, 2)) == reqQty(p)
+//@   ensures [C18] wmc-written: lenOK(p) && p.FunctionCode == FuncCodeWriteMultipleCoils && normalResp(p, res1, err) ==> (forall c int :: reqAddr(p) <= c && c < reqAddr(p)+reqQty(p) ==> coilVal(RG(regs), c) == bit8(p.Data[5+fdiv(c-reqAddr(p), 8)], fmod(c-reqAddr(p), 8)))
+//@   ensures [C18] wmc-others: lenOK(p) && p.FunctionCode == FuncCodeWriteMultipleCoils ==> (forall c int :: (c < reqAddr(p) || c >= reqAddr(p)+reqQty(p)) ==> coilVal(RG(regs), c) == old(coilVal(RG(regs), c)))
+//@   ensures [C18] wmr-qty: lenOK(p) && p.FunctionCode == FuncCodeWriteMultipleRegisters && (reqQty(p) < 1 || reqQty(p) > 123) ==> excResp(p, res0, res1, err, 3) && unchanged(RG(regs))
+//@   ensures [C18] wmr-len: lenOK(p) && p.FunctionCode == FuncCodeWriteMultipleRegisters && 1 <= reqQty(p) && reqQty(p) <= 123 && len(p.Data) != 5 + 2*reqQty(p) ==> excResp(p, res0, res1, err, 3) && unchanged(RG(regs))
+//@   ensures [C18] wmr-exc: lenOK(p) && p.FunctionCode == FuncCodeWriteMultipleRegisters && !normalResp(p, res1, err) ==> excResp(p, res0, res1, err, 2) || excResp(p, res0, res1, err, 3)
+//@   ensures [C18] wmr-ok: lenOK(p) && p.FunctionCode == FuncCodeWriteMultipleRegisters && normalResp(p, res1, err) ==> res0 && 1 <= reqQty(p) && reqQty(p) <= 123 && len(p.Data) == 5 + 2*reqQty(p) && len(res1.Data) == 4 && int(be16(res1.Data, 0)) == reqAddr(p) && int(be16(res1.Data, 2)) == reqQty(p)
+//@   ensures [C18] wmr-written: lenOK(p) && p.FunctionCode == FuncCodeWriteMultipleRegisters && normalResp(p, res1, err) ==> (forall g int :: reqAddr(p) <= g && g < reqAddr(p)+reqQty(p) ==> regVal(RG(regs), g) == be16(p.Data, 5+2*(g-reqAddr(p))))
+//@   ensures [C18] wmr-others: lenOK(p) && p.FunctionCode == FuncCodeWriteMultipleRegisters ==> (forall g int :: (g < reqAddr(p) || g >= reqAddr(p)+reqQty(p)) ==> regVal(RG(regs), g) == old(regVal(RG(regs), g)))
+//@   loop 1:
+//@     invariant 0 <= i && i <= int(count) && 1 <= int(count) && int(count) <= 2000 && !regsChanged
+//@     invariant len(resp.Data) == 1 + int(bytes) && int(bytes) == fdiv(int(count)+7, 8) && isfresh(resp.Data) && resp.Data[0] == bytes && resp.FunctionCode == p.FunctionCode
+//@     invariant forall c int :: int(address) <= c && c < int(address)+i ==> hasCoil(RG(regs), c)
+//@     invariant forall c int :: int(address) <= c && c < int(address)+i ==> bit8(resp.Data[1+fdiv(c-int(address), 8)], fmod(c-int(address), 8)) == coilVal(RG(regs), c)
+//@     invariant forall j int :: i <= j && j < 8*int(bytes) ==> !bit8(resp.Data[1+fdiv(j, 8)], fmod(j, 8))
+//@     modifies resp.Data
+//@     decreases int(count) - i
+//@   loop 2:
+//@     invariant 0 <= i && i <= int(count) && 1 <= int(count) && int(count) <= 125 && !regsChanged
+//@     invariant len(resp.Data) == 1 + 2*int(count) && isfresh(resp.Data) && int(resp.Data[0]) == 2*int(count) && resp.FunctionCode == p.FunctionCode
+//@     invariant forall g int :: int(address) <= g && g < int(address)+i ==> hasReg(RG(regs), g)
+//@     invariant forall g int :: int(address) <= g && g < int(address)+i ==> be16(resp.Data, 1+2*(g-int(address))) == regVal(RG(regs), g)
+//@     modifies resp.Data
+//@     decreases int(count) - i
+//@   loop 3:
+//@     invariant 0 <= i && i <= int(quantity) && 1 <= int(quantity) && int(quantity) <= 1968 && len(p.Data) == 5 + fdiv(int(quantity)+7, 8) && !regsChanged
+//@     invariant int(address) == reqAddr(p) && int(quantity) == reqQty(p) && resp.FunctionCode == p.FunctionCode
+//@     invariant regsFrame(RG(regs)) && coilsFrame(RG(regs))
+//@     invariant forall c int :: int(address) <= c && c < int(address)+i ==> coilVal(RG(regs), c) == bit8(p.Data[5+fdiv(c-int(address), 8)], fmod(c-int(address), 8))
+//@     invariant forall c int :: (c < int(address) || c >= int(address)+i) ==> coilVal(RG(regs), c) == old(coilVal(RG(regs), c))
+//@     modifies RG(regs).regs
+//@     decreases int(quantity) - i
+//@   loop 4:
+//@     invariant 0 <= i && i <= int(quantity) && 1 <= int(quantity) && int(quantity) <= 123 && len(p.Data) == 5 + 2*int(quantity) && !regsChanged
+//@     invariant int(address) == reqAddr(p) && int(quantity) == reqQty(p) && resp.FunctionCode == p.FunctionCode
+//@     invariant regsFrame(RG(regs)) && coilsFrame(RG(regs))
+//@     invariant forall g int :: int(address) <= g && g < int(address)+i ==> regVal(RG(regs), g) == be16(p.Data, 5+2*(g-int(address)))
+//@     invariant forall g int :: (g < int(address) || g >= int(address)+i) ==> regVal(RG(regs), g) == old(regVal(RG(regs), g))
+//@     modifies RG(regs).regs
+//@     decreases int(quantity) - i
